@@ -127,6 +127,10 @@ def monitor(case: Case, out: list[str]):
     return None
 
 
+def _monitor(case: Case, out: list[str]):
+    return None if case.tag == "malformed" else monitor(case, out)
+
+
 def _desc(n, kw, dw) -> dict:
     return {"component": "ContentAddressableMemory", "n": n, "kw": kw, "dw": dw}
 
@@ -182,7 +186,7 @@ REGIMES = [
 def gen_cases(ctx: Check):
     rng = ctx.rng("gen")
     good, malformed = [], []
-    cyc = ctx.pick(150, 1500)
+    cyc = ctx.pick(120, 1500)
     ns = ctx.pick([1, 2, 3, 4, 5, 6, 7, 8, 9], list(range(1, 18)))
     for n in ns:
         shapes = {(max(1, n.bit_length()), 4), (rng.choice([2, 3, 4, 5]), rng.choice([1, 3, 8])), (8, 8)}
@@ -245,9 +249,9 @@ def run(ctx: Check):
     good, malformed = gen_cases(ctx)
     for c in good:
         ctx.count(f"entries_{c.desc['n']}")
-    lockstep(ctx, "cam", "C24", good, impl, monitor, more_cases, nontrivial, procs=ctx.pick(1, None))
-    if not ctx.violations:
-        lockstep(ctx, "cam-duplicate-push", "C24", malformed, impl, None, None, nontrivial, procs=ctx.pick(1, None))
+    # one batch: histories pushing present keys (tag "malformed", outside the hypothesis) are compared
+    # model-vs-implementation only, the monitor does not judge them
+    lockstep(ctx, "cam", "C24", good + malformed, impl, _monitor, more_cases, nontrivial, procs=ctx.pick(1, None))
     ctx.note("pushes of keys already present (outside the property's hypothesis) are compared model-vs-implementation only")
 
 
